@@ -2,6 +2,7 @@ import Mkdb.Proofs.NoPanicExec
 import Mkdb.Proofs.SpecRefineB
 import Mkdb.Proofs.SessionInv9
 import Mkdb.Proofs.TypedTables7
+import Mkdb.Proofs.SessionSelect1
 /-!
 # C18 — no statement can crash the engine (SELECT evaluation)
 
@@ -124,8 +125,16 @@ database; naming a database that exists or not - returns a result or an error va
 evaluator that panics, runs an unmodelled path or out of fuel, a CREATE DATABASE or close that fails),
 and leaves a session that satisfies the invariant again.  `StmtSide s st`: the side conditions of
 `C18_every_statement_keeps_the_database_invariant` for the selected database (none for the statements
-not routed to it, none when nothing is selected).  The SELECT evaluator itself is
-`C18_no_panic_partial` / `C18_sort_safe` (the session model does not evaluate queries). -/
+not routed to it, none when nothing is selected).
+CHANGED: the session model now EVALUATES a SELECT (`Exec.evaluateSelect` on what `Fetch` returns from the
+selected database, `Session.fetchOfDB`), so this theorem genuinely covers SELECT statements: that the
+evaluation returns rows or an error value - never a panic, the sort comparator included - is proved from
+`C18_select_on_stored_tables_never_panics` under the invariant `DbInv` of the selected database
+(`select_sessAbs`, Proofs/SessionInv6).  For that `StmtSide` has, for a `.select q`, the two conditions
+of that theorem (`SelectSide`): the select list has a shape the parser builds - the shape hypothesis of
+`C18_no_panic_partial`, which `C18_parsed_select_has_the_shape` discharges for every parsed statement -
+and the FROM clause names neither `sys_pages` nor `sys_schema` (`UserTables q`; not known to be needed:
+the gap of the invariant named in `C18_stored_tables_are_typed`). -/
 theorem C18_session_statement_never_crashes (s : Sess) (h : SessInv s) (st : Sql.Stmt) (hside : StmtSide s st) :
     (exec s st).2 ≠ Out.panic ∧ SessInv (exec s st).1 := by
   obtain ⟨w, hw⟩ := h
@@ -137,7 +146,10 @@ exists, none is selected), going on after every error value.  If each statement 
 conditions in the state it is run in (`SessOK`), no step returns `Out.panic` - in particular not with no
 database selected (`C17_no_database_selected`: the error `noDbSelected`), not after a refused USE
 (`C17_use_missing`, `C17_invalid_name_refused`), not after a refused CREATE DATABASE
-(`C17_create_existing`) - and the final session satisfies the invariant. -/
+(`C17_create_existing`) - and the final session satisfies the invariant.  The SELECT statements of the
+history are EVALUATED on the database selected at that point (CHANGED: they were a stub of the session
+model); `SessOK` asks of each of them a select list of a parser-produced shape and a FROM clause over user
+tables (`SelectSide`), and nothing else. -/
 theorem C18_session_never_crashes (sts : List Sql.Stmt) (hok : SessOK {} sts) :
     (∀ o ∈ (runAll {} sts).2, o ≠ Out.panic) ∧ SessInv (runAll {} sts).1 := by
   obtain ⟨hfin, houts⟩ := runAll_sessAbs sts {} (fun _ => []) (sessAbs_empty _) hok
@@ -146,23 +158,28 @@ theorem C18_session_never_crashes (sts : List Sql.Stmt) (hok : SessOK {} sts) :
 /-- **C18.plain_histories_meet_the_side_conditions** (non-vacuity of `SessOK` beyond single examples):
 every history of CREATE DATABASE, USE, SHOW DATABASES, SELECT, DELETE and UPDATE statements - the last
 two on any table name other than `sys_pages` / `sys_schema`, UPDATE with SET literals a Go program can
-hold - meets the side conditions from EVERY session state.  So no such history, of any length, over any
-number of databases, makes the session model crash. -/
+hold; SELECT with a select list of a shape the parser builds and a FROM clause that names neither catalog
+table (CHANGED: `Plain (.select q)` was `True` while the session model did not evaluate queries) - meets
+the side conditions from EVERY session state.  So no such history, of any length, over any number of
+databases, makes the session model crash - its SELECTs are evaluated, each on the database selected when
+it runs. -/
 theorem C18_plain_histories_never_crash (sts : List Sql.Stmt) (h : ∀ st ∈ sts, Plain st) :
     (∀ o ∈ (runAll {} sts).2, o ≠ Out.panic) ∧ SessInv (runAll {} sts).1 :=
   C18_session_never_crashes sts (sessOK_plain sts {} h)
 
-/-- non-vacuity: a history with a statement before any USE, a USE of a missing database, CREATE DATABASE
-twice, an invalid name, DELETE / UPDATE of a table that does not exist -/
-example : ∀ st ∈ [Stmt.delete tname none, .use [120], .createDatabase [100], .createDatabase [100],
+/-- non-vacuity: a history with a statement before any USE (a SELECT), a USE of a missing database, CREATE
+DATABASE twice, an invalid name, DELETE / UPDATE / SELECT of a table that does not exist -/
+example : ∀ st ∈ [Stmt.select exJoinQuery, .delete tname none, .use [120], .createDatabase [100], .createDatabase [100],
     .createDatabase [97, 47, 98], .use [100], .use [120], .delete tname none,
-    .update tname [([97], .lit (.int 7))] none, .showDatabases], Plain st := by
+    .update tname [([97], .lit (.int 7))] none, .select exGroupQuery, .showDatabases], Plain st := by
   intro st hst
   simp only [List.mem_cons, List.not_mem_nil, or_false] at hst
-  rcases hst with rfl | rfl | rfl | rfl | rfl | rfl | rfl | rfl | rfl | rfl
+  rcases hst with rfl | rfl | rfl | rfl | rfl | rfl | rfl | rfl | rfl | rfl | rfl | rfl
   all_goals first
     | exact trivial
     | exact tname_ne_sys
+    | exact ⟨exQueries_ok.1, exQueries_ok.2.1⟩
+    | exact ⟨exQueries_ok.2.2.1, exQueries_ok.2.2.2⟩
     | refine ⟨tname_ne_sys, ?_⟩
       intro p hp l hl
       simp only [List.mem_singleton] at hp
@@ -430,8 +447,9 @@ end Mkdb.Store
 namespace Mkdb.Session
 open Mkdb.Engine Mkdb.Store Mkdb.Sql Mkdb.Exec
 
-/-- **C18.session_select_never_panics** (the SELECT that the session model leaves as a stub, evaluated).
-Run ANY list of statements from the empty session, going on after every error value (`SessOK`: the side
+/-- **C18.session_select_never_panics** (a SELECT evaluated on ANY database of the session reached, not
+only on the selected one as `Session.exec` now does - `C18_session_never_crashes`,
+`C18_session_select_is_answered_or_refused`).  Run ANY list of statements from the empty session, going on after every error value (`SessOK`: the side
 conditions of `C18_session_never_crashes`).  In the session reached, on EVERY database of the session -
 the selected one in particular - every SELECT of a parser-produced shape over user tables reads its
 tables without a crash of `Fetch` and evaluates to rows or an error value: never a panic. -/
@@ -441,12 +459,32 @@ theorem C18_session_select_never_panics (sts : List Sql.Stmt) (hok : SessOK {} s
       (∀ n ∈ selectNames q, FetchTotal p.2 n) ∧ ∀ x, evaluateSelect (fetchOf p.2) q ≠ .panic x :=
   session_select_never_panics sts hok
 
-/-- non-vacuity: a history with a refused USE, two CREATE DATABASE and a USE meets `SessOK` -/
-example : SessOK {} [.use [120], .createDatabase [100], .createDatabase [101], .use [100], .select exGroupQuery] :=
-  sessOK_plain _ {} (by
+/-- non-vacuity: a history with a refused USE, two CREATE DATABASE, a USE and a SELECT meets `SessOK`; the
+SELECT is evaluated (computed by the model) on the database `CREATE DATABASE` left, which has no table
+`t`: the error value `tableNotExist` -/
+example : SessOK {} [.use [120], .createDatabase [100], .createDatabase [101], .use [100], .select exGroupQuery] ∧
+    (runAll {} [.use [120], .createDatabase [100], .createDatabase [101], .use [100], .select exGroupQuery]).2.map
+      (Out.isErr "tableNotExist") = [false, false, false, false, true] :=
+  ⟨sessOK_plain _ {} (by
     intro st hst
     simp only [List.mem_cons, List.not_mem_nil, or_false] at hst
-    rcases hst with rfl | rfl | rfl | rfl | rfl <;> exact trivial)
+    rcases hst with rfl | rfl | rfl | rfl | rfl
+    all_goals first
+      | exact trivial
+      | exact ⟨exQueries_ok.1, exQueries_ok.2.1⟩), select_on_new_database_refused⟩
+
+/-- non-vacuity with a real evaluation that is answered: from the session whose selected database holds the
+table `t (a INT)` (`sessT`: it satisfies the invariant) the two SELECTs - GROUP BY with COUNT and ORDER BY, a
+LEFT JOIN of `t` with itself sorted on the padded column - meet `SessOK`, read the pages of `t` and are
+answered (computed by the model) -/
+example : SessInv sessT ∧ SessOK sessT [.select exGroupQuery, .select exJoinQuery] ∧
+    (runAll sessT [.select exGroupQuery, .select exJoinQuery]).2.map Out.isOk = [true, true] :=
+  ⟨⟨_, sessAbs_sessT⟩, sessOK_plain _ _ (by
+    intro st hst
+    simp only [List.mem_cons, List.not_mem_nil, or_false] at hst
+    rcases hst with rfl | rfl
+    · exact ⟨exQueries_ok.1, exQueries_ok.2.1⟩
+    · exact ⟨exQueries_ok.2.2.1, exQueries_ok.2.2.2⟩), sessT_selects_answered⟩
 
 /-- the same from any session that satisfies the invariant -/
 theorem C18_session_state_select_never_panics (s : Sess) (h : SessInv s) :
@@ -457,5 +495,103 @@ theorem C18_session_state_select_never_panics (s : Sess) (h : SessInv s) :
 /-- non-vacuity: the session whose selected database is the computed `tableDB` satisfies the invariant and
 holds that database -/
 example : SessInv sessT ∧ ("d", tableDB) ∈ sessT.dbs := ⟨⟨_, sessAbs_sessT⟩, by simp [sessT]⟩
+
+/-! ## the SELECT statement of a session, evaluated
+
+`Session.exec s (.select q)` runs `evaluateSelect` on `Session.fetchOfDB db` of the selected database `db`
+- by definition the `fetchOf db` of the theorems above (`C18_session_fetch_is_fetchOf`).  `fetchOfPlain sdb`
+(Proofs/SessionSelect1) is the `fetch` function of a plain in-memory database: for each table its declared
+column names and its rows - the one the judge of the session runs builds (`Mkdb/Driver/Sess.lean`). -/
+
+/-- what the session's SELECT reads is the `fetchOf` of `C18_stored_tables_are_typed` (by definition) -/
+theorem C18_session_fetch_is_fetchOf : fetchOfDB = fetchOf := rfl
+
+/-- **C18.stored_database_reads_as_the_plain_database**: under the invariant, what a SELECT reads for a name
+other than `sys_pages` / `sys_schema` is exactly the table of the plain database (`none` if it has none of
+that name; `C17_contents_are_what_a_reader_sees`, `C18_stored_tables_are_typed`), so a SELECT over user
+tables evaluates on the stored database to what it evaluates to on the plain one. -/
+theorem C18_stored_database_reads_as_the_plain_database (db : Engine.DB) (sdb : Spec.SDB) (pt sch : Tree.Levels)
+    (tbls : List (Bytes × Tree.Levels)) (h : DbInv db sdb pt sch tbls) :
+    (∀ n, n ≠ sysPages → n ≠ sysSchema → fetchOf db n = fetchOfPlain sdb n) ∧
+    ∀ q : Select, UserTables q → evaluateSelect (fetchOf db) q = evaluateSelect (fetchOfPlain sdb) q :=
+  ⟨fun n h1 h2 => fetchOf_eq_plain h.abs n h1 h2, fun q hn => select_on_stored_eq_plain h.abs q hn⟩
+
+/-- non-vacuity: the computed database `tableDB` and its plain database; `t` reads as the empty table with
+the column `a` on both sides -/
+example : DbInv tableDB sdbA0 ptT schT [(tname, tT)] ∧ UserTables exGroupQuery ∧
+    (fetchOfPlain sdbA0 tname).map (fun t => (t.cols, t.rows)) = some ([[97]], []) :=
+  ⟨dbFlushed_tableDB.inv, exQueries_ok.2.1, by decide +kernel⟩
+
+open Mkdb.Exec.MeaningP Mkdb.Exec.SelectP in
+/-- **C18.session_select_is_answered_or_refused**.  In a session that satisfies the invariant - it abstracts
+to the plain databases `w` (`SessAbs s w`; `SessInv s` is `∃ w, SessAbs s w`) - with a database `n`
+selected, for a SELECT whose select list has a shape the parser builds (`hq`; `C18_parsed_select_has_the_shape`)
+and whose FROM clause names user tables (`hn`):
+(1) the statement changes nothing;
+(2) it is answered (`Out.ok`) or refused with an error value of the executor - never `Out.panic`;
+(3) which of the two, and which error, is what `evaluateSelect` returns on the PLAIN database `w n`
+(`selectOut`: `.ok _ ↦ Out.ok`, `.err e ↦ Out.err (stmtErr (.exec e))`);
+(4) it is answered whenever the query has a reference meaning `want` on the plain database
+(`Spec.meaning (fetchOfPlain (w n)) q`), its ORDER BY keys resolve against the judge's header and hold
+comparable values on `want`: a well-typed query is not refused at the session level either
+(`C05_meaningful_query_is_answered`, `C06_…`, `C07_join_…` composed with the invariant; `WellShaped` of C07
+is discharged by `Typed (w n)`, a consequence of the invariant).  `hgrp` (only for a query with aggregates
+or GROUP BY): the select list does not start with `*` and `avgGroupsConstant` (the hypotheses of
+`C07_join_meaningful_query_is_answered`; the latter holds of every query without AVG:
+`C07_avgGroupsConstant_of_noAvg`).
+Not covered: with no database selected the statement is refused with `noDbSelected`
+(`C17_no_database_selected`); that the key columns of a meaning over typed tables ARE comparable is not
+derived here (`hcomp` stays a hypothesis), and a query with AVG over a group of unequal values is only
+covered by (1)-(3). -/
+theorem C18_session_select_is_answered_or_refused (s : Sess) (w : String → Spec.SDB) (h : SessAbs s w)
+    (n : String) (hc : s.cur = some n) (q : Select)
+    (hq : (∃ a, q.list = [⟨.star, a⟩]) ∨ isStar q.list = false) (hn : UserTables q) :
+    (exec s (.select q)).1 = s ∧
+    ((exec s (.select q)).2 = Out.ok ∨ ∃ e, (exec s (.select q)).2 = Out.err (stmtErr (.exec e))) ∧
+    (exec s (.select q)).2 = selectOut (evaluateSelect (fetchOfPlain (w n)) q) ∧
+    ∀ (want : List Row) (keys : List (Nat × Bool)),
+      Spec.meaning (fetchOfPlain (w n)) q = some want →
+      Spec.sortKeys q (judgeHeader (fetchOfPlain (w n)) q) = some keys →
+      (∀ a ∈ want, ∀ b ∈ want, KeyComparable keys a b) →
+      (groups q = true → isStar q.list = false ∧ avgGroupsConstant (fetchOfPlain (w n)) q = true) →
+      (exec s (.select q)).2 = Out.ok := by
+  obtain ⟨he, hnp⟩ := session_select_outcome h hc q hn
+  refine ⟨by rw [he], ?_, by rw [he], fun want keys hm hk hcomp hgrp => ?_⟩
+  · rw [he]
+    cases hr : evaluateSelect (fetchOfPlain (w n)) q with
+    | ok r => exact .inl rfl
+    | err e => exact .inr ⟨e, rfl⟩
+    | panic x => exact absurd hr (hnp hq x)
+  · rw [session_meaningful_select_answered h hc q hn hm hk hcomp hgrp]
+
+open Mkdb.Exec.MeaningP Mkdb.Exec.SelectP in
+/-- non-vacuity, with rows: `INSERT INTO t VALUES (5), (6)` in the session `sessT` is accepted and leaves a
+session `s1` that abstracts to plain databases `w` with `d` selected and `w "d"` the plain model's result;
+there `SELECT a, count(*) FROM t GROUP BY a ORDER BY a` has the reference meaning `(5, 1), (6, 1)`, its sort
+key resolves, the keys are comparable, no AVG: every hypothesis of the theorem holds, so the session answers
+the query -/
+example : ∃ s1 w, exec sessT (.insert tname [] [[.int 5], [.int 6]]) = (s1, .ok) ∧ SessAbs s1 w ∧
+    s1.cur = some "d" ∧ w "d" = sdbA1 ∧
+    ((∃ a, exGroupQuery.list = [⟨.star, a⟩]) ∨ isStar exGroupQuery.list = false) ∧ UserTables exGroupQuery ∧
+    Spec.meaning (fetchOfPlain sdbA1) exGroupQuery = some [[.int 5, .int 1], [.int 6, .int 1]] ∧
+    Spec.sortKeys exGroupQuery (judgeHeader (fetchOfPlain sdbA1) exGroupQuery) = some [(0, false)] ∧
+    (∀ a ∈ [[Tuple.Val.int 5, .int 1], [.int 6, .int 1]], ∀ b ∈ [[Tuple.Val.int 5, .int 1], [.int 6, .int 1]],
+      KeyComparable [(0, false)] a b) ∧
+    isStar exGroupQuery.list = false ∧ avgGroupsConstant (fetchOfPlain sdbA1) exGroupQuery = true ∧
+    exec s1 (.select exGroupQuery) = (s1, .ok) := by
+  obtain ⟨s1, w, e, h1, hc, hw⟩ := sessT_after_insert
+  obtain ⟨hm, hk, hcomp, hs, havg⟩ := exGroupQuery_meaning_sdbA1
+  refine ⟨s1, w, e, h1, hc, hw, exQueries_ok.1, exQueries_ok.2.1, hm, hk, hcomp, hs, havg, ?_⟩
+  have h4 := (C18_session_select_is_answered_or_refused s1 w h1 "d" hc exGroupQuery exQueries_ok.1
+    exQueries_ok.2.1).2.2.2 _ _ (by rw [hw]; exact hm) (by rw [hw]; exact hk) hcomp
+    (fun _ => ⟨hs, by rw [hw]; exact havg⟩)
+  have h1' := (C18_session_select_is_answered_or_refused s1 w h1 "d" hc exGroupQuery exQueries_ok.1
+    exQueries_ok.2.1).1
+  exact Prod.ext h1' h4
+
+/-- the other branch of (2): in `sessT` a SELECT from a table that does not exist is refused with the
+executor's error value (computed by the model) -/
+example : (exec sessT (.select { list := [⟨.star, []⟩], from_ := some (.table ⟨[117], none⟩) })).2.isErr
+    "tableNotExist" = true := by decide +kernel
 
 end Mkdb.Session
